@@ -51,13 +51,13 @@ def main():
             "guard": "PUAN_PYTHON_VERIF",
             "enable": "no hooks are needed: the checks observe through the public API and wrap AtLeast._id_generator from the harness process",
             "baseline_off_cmd": "cd /repo && /venv/bin/python -m pytest -ra -q -p no:cacheprovider --timeout=900 --continue-on-collection-errors",
-            "source_commits": commits,
+            "source_commits": [],
             "add_only": True,
         },
         "engines": [{"name": "coq-model", "path": "coq/theories", "serves_properties": claimed,
                      "kind_free_text": "hand-written Gallina model + theorems (Coq 8.16.1), correspondence check by vm_compute on generated case files, direct oracles"}],
         "checks": checks,
-        "notes": "See DESIGN.md. fix: commits in /repo are listed in hooks.source_commits and known_findings.json.",
+        "notes": "See DESIGN.md (section 11 = as built). No hook commits exist in /repo (hooks.source_commits is empty). Genuine defects repaired by unguarded fix: commits in /repo: " + ", ".join(commits) + " — each recorded as 'fixed:' in known_findings.json; known findings (not repaired) are listed there too.",
         "not_applicable": na,
     }
     json.dump(m, open(os.path.join(HERE, "MANIFEST.json"), "w"), indent=1)
